@@ -43,7 +43,8 @@ def parseDDump (s : String) : Option (List EntryD) :=
     | _ => none
 
 def fmtNode (n : Node) : String :=
-  s!"{n.desc}/{n.flags}/{n.enc.type.code}/{n.enc.nbits}/{n.enc.scale}/{n.enc.ref}/{n.enc.afNbits}/{if n.hasVal then 1 else 0}"
+  let v := if n.hasVal && hasFlag n.flags FLAG_CLASS31 then toString n.ival else "-"
+  s!"{n.desc}/{n.flags}/{n.enc.type.code}/{n.enc.nbits}/{n.enc.scale}/{n.enc.ref}/{n.enc.afNbits}/{if n.hasVal then 1 else 0}/{v}"
 
 def fmtNodes (ns : List Node) : String :=
   if ns.isEmpty then "-" else " ".intercalate (ns.map fmtNode)
@@ -101,6 +102,22 @@ def stepTemplate (st : TmplSt) (toks : List String) : Option (TmplSt × String) 
         | none => some (st, "none")
       | none => some (st, "none")
     | _, _, _ => some (st, "bad-op")
+  | "ss.setfactors" :: p :: vs =>
+    match p.toNat?, vs.mapM (·.toNat?) with
+    | some p, some vs =>
+      match st.subsets[p]? with
+      | some s =>
+        if vs.isEmpty then some (st, "bad-op") else
+        let step := fun (acc : List Node × Nat) (n : Node) =>
+          if isClass31Factor n.desc && hasFlag n.flags FLAG_CLASS31 && !n.expanded && !n.skipped && n.hasVal then
+            let v := vs.getD (acc.2 % vs.length) 0
+            let v' := v % 2 ^ n.enc.nbits.toNat
+            (acc.1 ++ [{ n with ival := v' }], acc.2 + 1)
+          else (acc.1 ++ [n], acc.2)
+        let (ns, k) := s.nodes.foldl step ([], 0)
+        some ({ st with subsets := st.subsets.set! p { nodes := ns } }, s!"{k}")
+      | none => some (st, "none")
+    | _, _ => some (st, "bad-op")
   | ["ss.expand", p] =>
     match p.toNat?, st.tmpl with
     | some p, some t =>
@@ -108,8 +125,9 @@ def stepTemplate (st : TmplSt) (toks : List String) : Option (TmplSt × String) 
       | some s =>
         match expandDatasubset T defaultFuel t s with
         | .ok (s', err) => some ({ st with subsets := st.subsets.set! p s', invalid := st.invalid || err }, s!"{s'.nodes.length}")
-        | .error _ => some (st, "-1")
+        | .error _ => some ({ st with subsets := st.subsets.set! p { nodes := [] } }, "-1")
       | none => some (st, "-1")
+    | some _, none => some (st, "-1")
     | _, _ => some (st, "bad-op")
   | ["ds.invalid"] => some (st, if st.invalid then "1" else "0")
   | _ => none
